@@ -39,7 +39,6 @@ import (
 	"github.com/ethereum/go-ethereum/crypto"
 
 	"github.com/vechain/thor/v2/block"
-	"github.com/vechain/thor/v2/chain"
 	"github.com/vechain/thor/v2/consensus"
 	"github.com/vechain/thor/v2/packer"
 	"github.com/vechain/thor/v2/runtime"
@@ -424,7 +423,9 @@ func (r *run) lookups(heads []*blk) {
 // phase offers a batch of candidates of every class on the given parents. other[i] is a block of the competing
 // branch used to find txs that are "only on the sibling branch".
 func (r *run) phase(parents []*blk, rounds int) {
-	fresh := func(num uint32, revert bool) *txr { return r.newTx(num-uint32(r.rng.Intn(int(min(num, 3))+1)), 1000, nil, true, revert) }
+	fresh := func(num uint32, revert bool) *txr {
+		return r.newTx(num-uint32(r.rng.Intn(int(min(num, 3))+1)), 1000, nil, true, revert)
+	}
 	for k := 0; k < rounds; k++ {
 		p := parents[r.rng.Intn(len(parents))]
 		num := p.num + 1
@@ -626,8 +627,6 @@ func oneRun(seed int64, mode string) *run {
 	r.st.Blocks = len(r.blocks) - 1
 	return r
 }
-
-var _ = chain.NewRepository
 
 func main() {
 	out := flag.String("out", ".", "output directory")
